@@ -840,6 +840,15 @@ func (s *c09Sess) run(q c09Req) {
 		return
 	}
 	s.kase = lib.NewCase(class)
+	// containment (peers/guard.go): the generated names all lie in the served tree; a request (of a replay file,
+	// of a future generator) whose paths leave the scratch directory is not sent to the os-backed server
+	for _, x := range append([]c09Req{q}, q.More...) {
+		x.Form, x.Cfg = q.Form, q.Cfg
+		if ok, _ := s.srv.Contained(c09Frame(x, 1, s.tree, "0")); !ok {
+			s.r.Hist(lib.NotRunBucket)
+			return
+		}
+	}
 	if len(q.Reads) > 0 {
 		s.runPipe(q)
 	} else {
@@ -972,7 +981,7 @@ func checkC09(c *lib.Ctx) {
 		}
 	}
 
-	root, err := os.MkdirTemp("", "vh-c09-")
+	root, err := lib.MkScratch("vh-c09-")
 	if err != nil {
 		r.Fail(lib.Failure{Kind: "tie", Key: "tmpdir", What: err.Error()})
 		return
